@@ -79,6 +79,8 @@ pub struct EObj {
 
 pub struct EditSubject<'a> {
     pub wasm: &'a [u8],
+    /// "C02": the output must validate; "C08": emission must be repeatable and a fixpoint
+    pub oracle: &'static str,
 }
 
 fn const_for(b: &mut InstrSeqBuilder, t: ValType, k: i32) {
@@ -128,6 +130,7 @@ fn apply_op(o: &mut EObj, op: &EOp) {
             let tab = m.tables.iter().next().map(|t| (t.id(), t.table64));
             let args: Vec<LocalId> = params.iter().map(|t| m.locals.add(*t)).collect();
             let mut b = FunctionBuilder::new(&mut m.types, &params, &results);
+            b.name(format!("edit_fn{}", k));
             {
                 let mut fb = b.func_body();
                 fb.i32_const(9000 + k).drop();
@@ -191,16 +194,20 @@ fn apply_op(o: &mut EObj, op: &EOp) {
         EOp::AddImport(kind) => match kind {
             0 => {
                 let ty = m.types.add(&[ValType::I32], &[]);
-                m.add_import_func("edit", &format!("f{}", k), ty);
+                let (f, _) = m.add_import_func("edit", &format!("f{}", k), ty);
+                m.funcs.get_mut(f).name = Some(format!("edit_if{}", k));
             }
             1 => {
-                m.add_import_global("edit", &format!("g{}", k), ValType::I32, false, false);
+                let (g, _) = m.add_import_global("edit", &format!("g{}", k), ValType::I32, false, false);
+                m.globals.get_mut(g).name = Some(format!("edit_ig{}", k));
             }
             2 => {
-                m.add_import_table("edit", &format!("t{}", k), false, 1, None, RefType::Funcref);
+                let (t, _) = m.add_import_table("edit", &format!("t{}", k), false, 1, None, RefType::Funcref);
+                m.tables.get_mut(t).name = Some(format!("edit_it{}", k));
             }
             _ => {
-                m.add_import_memory("edit", &format!("m{}", k), false, false, 1, None, None);
+                let (mm, _) = m.add_import_memory("edit", &format!("m{}", k), false, false, 1, None, None);
+                m.memories.get_mut(mm).name = Some(format!("edit_im{}", k));
             }
         },
         EOp::AddGlobal(kind) => {
@@ -219,6 +226,7 @@ fn apply_op(o: &mut EObj, op: &EOp) {
                 }
             };
             if let Some(id) = id {
+                m.globals.get_mut(id).name = Some(format!("edit_g{}", k));
                 o.unreferenced.push(Added::Global(id));
             }
         }
@@ -360,6 +368,30 @@ impl<'a> Subject for EditSubject<'a> {
     fn observe(&self, mut o: EObj, hist: &[EOp]) -> (u64, Vec<Finding>) {
         let mut fs = vec![];
         let out = o.m.emit_wasm();
+        if self.oracle == "C08" {
+            let e2 = o.m.emit_wasm();
+            if e2 != out {
+                fs.push(Finding {
+                    sig: format!("emit-not-repeatable:{}", crate::props::modhist::first_diff(&out, &e2)),
+                    detail: format!("after the edit history {:?} two consecutive emits differ", hist),
+                });
+            }
+            if wmodel::validate214(&out, wmodel::FeatureSet::DEFAULT).is_ok() {
+                match Cfg::default().config().parse(&out) {
+                    Ok(mut m2) => {
+                        let e3 = m2.emit_wasm();
+                        if e3 != out {
+                            fs.push(Finding {
+                                sig: format!("not-a-fixpoint:{}", crate::props::modhist::first_diff(&out, &e3)),
+                                detail: format!("after the edit history {:?}: emit(parse(emit(s))) differs from emit(s) ({} vs {} bytes)", hist, e3.len(), out.len()),
+                            });
+                        }
+                    }
+                    Err(e) => fs.push(Finding { sig: "own-output-rejected".into(), detail: format!("{:#}", e) }),
+                }
+            }
+            return (wmodel::fnv(&out), fs);
+        }
         if let Err(e) = wmodel::validate214(&out, wmodel::FeatureSet::DEFAULT) {
             let last = hist.last().map(|o| format!("{:?}", o)).unwrap_or_default();
             let last: String = last.chars().take_while(|c| c.is_alphabetic()).collect();
@@ -404,19 +436,31 @@ fn ops_from(v: &serde_json::Value) -> Vec<EOp> {
 }
 
 pub fn recheck(c: &Case) -> Vec<Violation> {
-    let s = EditSubject { wasm: &c.wasm };
+    recheck_as("C02", c)
+}
+pub fn recheck_as(oracle: &'static str, c: &Case) -> Vec<Violation> {
+    let s = EditSubject { wasm: &c.wasm, oracle };
     let h = ops_from(&c.cfg["edits"]);
     match replay(&s, &h) {
-        Ok((_, fs)) => fs.into_iter().map(|f| Violation::new("C02", f.sig, f.detail, c)).collect(),
-        Err(f) => vec![Violation::new("C02", format!("edit-{}", f.sig), f.detail, c)],
+        Ok((_, fs)) => fs.into_iter().map(|f| Violation::new(oracle, f.sig, f.detail, c)).collect(),
+        Err(f) => {
+            if oracle == "C08" {
+                vec![] // panics while editing / emitting are C02's
+            } else {
+                vec![Violation::new("C02", format!("edit-{}", f.sig), f.detail, c)]
+            }
+        }
     }
 }
 
 pub fn run_model(args: &Args, ev: &mut Ev) -> Vec<Violation> {
+    run_model_as("C02", args, ev)
+}
+pub fn run_model_as(oracle: &'static str, args: &Args, ev: &mut Ev) -> Vec<Violation> {
     let depth = if args.tier == Tier::Quick { 2 } else { 3 };
     let bs = bases();
     let (res, _) = pmap(&bs, args.threads, None, |(_, wasm)| {
-        let s = EditSubject { wasm };
+        let s = EditSubject { wasm, oracle };
         explore(&s, depth)
     });
     let mut viol = vec![];
@@ -430,8 +474,11 @@ pub fn run_model(args: &Args, ev: &mut Ev) -> Vec<Violation> {
         model.insert(name.clone(), json!({"states": st.states, "transitions": st.transitions, "merged": st.merged}));
         for f in found {
             let c = Case { family: "edits".into(), coords: name.clone(), wasm: wasm.clone(), cfg: json!({"edits": ops_json(&f.hist)}) };
+            if oracle == "C08" && f.finding.sig.starts_with("panic:") {
+                continue;
+            }
             let sig = if f.finding.sig.starts_with("panic:") { format!("edit-{}", f.finding.sig) } else { f.finding.sig };
-            viol.push(Violation::new("C02", sig, f.finding.detail, &c));
+            viol.push(Violation::new(oracle, sig, f.finding.detail, &c));
         }
     }
     ev.extra.insert("edit_model".into(), json!({"actions": all_ops().len(), "depth": depth, "bases": model}));
